@@ -651,6 +651,25 @@ def r_own_error_sites(r, prog):
     r.floor(4)
 
 
+def r_string_decoded_verbatim(r, prog):
+    """The string decoder hands back the bytes it read, validated and otherwise untouched: nothing is trimmed, stripped, replaced or drained (a
+    byte-order mark, a trailing NUL, white space are characters like any other and the encoder writes them)."""
+    fs = [f for k, f in prog.fns.items() if k.endswith('DecodeFrom for alloc::string::String>::decode_from')]
+    if len(fs) != 1:
+        raise AnchorMissing('DecodeFrom for String')
+    f = fs[0]
+    fam = [f] + closures_of(prog, f)
+    edits = [c.name() for g in fam for c in g.calls() if not g.blocks[c.bb].get('cleanup') and c.name() in (
+        'drain', 'trim', 'trim_start', 'trim_end', 'trim_matches', 'trim_start_matches', 'trim_end_matches', 'strip_prefix', 'strip_suffix', 'replace', 'replacen', 'remove',
+        'retain', 'truncate', 'pop', 'insert', 'insert_str', 'push', 'push_str', 'to_lowercase', 'to_uppercase', 'split_off', 'from_utf8_lossy', 'starts_with', 'ends_with')]
+    fu = [c for c in f.calls() if c.name() == 'from_utf8' and not f.blocks[c.bb].get('cleanup')]
+    if edits or len(fu) != 1:
+        r.finding('string-decoder-edits-value', f.span, 'the String decoder calls %s: the decoded text is not the text that was encoded' % (sorted(set(edits)) or 'from_utf8 %d times' % len(fu)))
+    else:
+        r.ok('the String decoder returns String::from_utf8 of the bytes read, unedited')
+    r.floor(1)
+
+
 # --------------------------------------------------------------------------- C10 tables
 INT_WIDTH = {'i8': 8, 'u8': 8, 'i16': 16, 'u16': 16, 'i32': 32, 'u32': 32, 'i64': 64, 'u64': 64}
 
